@@ -1,4 +1,5 @@
 import PetgraphModel.Proofs.Matrix
+import PetgraphModel.Spec.MatrixMachine
 import Mathlib.Data.List.Nodup
 /-
 C04 helper lemmas, second part: `IdStorage`, the invariant of the matrix graph, the effect of every
@@ -1070,7 +1071,14 @@ theorem setEdgeWeight_spec {s : State} {g : G} (h : Inv s) (r : R s g) (a b : Na
     (hw : s.nz = true → w ≠ 0) :
     ((g.weight a b).isSome → ∃ s', setEdgeWeight s a b w = (s', .unit) ∧ Inv s' ∧ R s' (g.setEdge a b w)) ∧
     (g.weight a b = none → setEdgeWeight s a b w = (s, .panic)) := by
+  have hraw : rawCell s.nz w = some w := by
+    unfold rawCell
+    by_cases hz : s.nz = true
+    · have := hw hz
+      simp [hz, this]
+    · simp [hz]
   unfold setEdgeWeight edgeWeight edgePos
+  rw [hraw]
   by_cases hm : max a b ≥ s.cap
   · have hn : g.weight a b = none := by rw [r.edges, getEdgeWeight_def, if_pos hm]
     rw [if_pos hm]
@@ -1363,49 +1371,9 @@ theorem removeNode_spec {s : State} {g : G} (h : Inv s) (r : R s g) (a : Nat) :
 
 /-! ### the abstract machine and the refinement of every call -/
 
-/-- `Nullable::new` rejects the weight (the documented assertion of `NotZero::new`) -/
-def zeroRejected (nz : Bool) (w : Int) : Bool := nz && w == 0
-
-/-- What the property says a call does to the simple graph, and what it answers.  `id` is the id an
-`add_node` hands out (the property leaves the choice open; it only must not be a live id). -/
-def specStep (nz : Bool) (ixMax : Nat) (g : G) (op : Op) (id : Nat) : G × Out :=
-  match op with
-  | .addNode w => if g.nodeCount = ixMax then (g, .panic) else (g.addNode id w, .id id)
-  | .tryAddNode w => if g.nodeCount = ixMax then (g, .resErr .nodeIxLimit) else (g.addNode id w, .resIdOk id)
-  | .removeNode a => match g.nodeWeight a with
-    | some w => (g.removeNode a, .w w)
-    | none => (g, .panic)
-  | .addEdge a b w => if zeroRejected nz w then (g, .panic)
-    else (g.setEdge a b w, if (g.weight a b).isSome then .panic else .unit)
-  | .updateEdge a b w => if zeroRejected nz w then (g, .panic) else (g.setEdge a b w, .optW (g.weight a b))
-  | .tryUpdateEdge a b w | .addOrUpdateEdge a b w =>
-    if zeroRejected nz w then (g, .panic) else (g.setEdge a b w, .resOk (g.weight a b))
-  | .removeEdge a b => match g.weight a b with
-    | some w => (g.removeEdge a b, .w w)
-    | none => (g, .panic)
-  | .tryRemoveEdge a b => match g.weight a b with
-    | some w => (g.removeEdge a b, .optW (some w))
-    | none => (g, .optW none)
-  | .setNodeWeight a w => if g.live a then (g.setNodeWeight a w, .unit) else (g, .panic)
-  | .setEdgeWeight a b w => if (g.weight a b).isSome then (g.setEdge a b w, .unit) else (g, .panic)
-  | .buildAddEdge a b w => if (g.weight a b).isSome then (g, .bool false)
-    else if zeroRejected nz w then (g, .panic) else (g.setEdge a b w, .bool true)
-  | .buildUpdateEdge a b w => if zeroRejected nz w then (g, .panic) else (g.setEdge a b w, .unit)
-  | .clear => (g.clear, .unit)
-
-/-- the property's quantifier: edge-writing calls are between existing nodes (and the sentinel is not
-written through `edge_weight_mut` of a `NotZero` graph); every other call takes arbitrary arguments -/
-def Valid (nz : Bool) (g : G) : Op → Prop
-  | .addEdge a b _ | .updateEdge a b _ | .tryUpdateEdge a b _ | .addOrUpdateEdge a b _
-  | .buildAddEdge a b _ | .buildUpdateEdge a b _ => g.live a = true ∧ g.live b = true
-  | .setEdgeWeight _ _ w => nz = true → w ≠ 0
-  | _ => True
-
-/-- the id a model answer hands out -/
-def idOf : Out → Nat
-  | .id n => n
-  | .resIdOk n => n
-  | _ => 0
+/- `zeroRejected`, `specStep`, `Valid`, `idOf` (the abstract machine) are defined in the core-only file
+`Spec/MatrixMachine.lean` (same namespace, same definitions) so that the driver runs the very functions the
+theorems are about. -/
 
 theorem zeroRejected_iff (nz : Bool) (w : Int) : zeroRejected nz w = true ↔ (nz = true ∧ w = 0) := by
   unfold zeroRejected; simp
